@@ -7,6 +7,7 @@
 package main
 
 import (
+	"sync"
 	"bufio"
 	"encoding/hex"
 	"encoding/json"
@@ -87,19 +88,64 @@ func genValidate(r *gen.Rand, n int) {
 	}
 }
 
+// viaBuilder answers the same accept/reject question through the documented builder: the configuration is
+// built several times from ONE builder; every Build must give the constructor's answer and an accepted
+// policy must be usable (a typed-nil or half-built policy shows as "unusable" / "inconsistent").
+func viaBuilder(conf func(*retry.BackoffBuilder)) string {
+	b := retry.NewBackoffBuilder()
+	conf(b)
+	ans := ""
+	for k := 0; k < 3; k++ {
+		bo, err := b.Build()
+		a := b2s(false)
+		if err == nil {
+			a = b2s(true)
+			func() {
+				defer func() {
+					if recover() != nil {
+						a = "unusable"
+					}
+				}()
+				if bo == nil {
+					a = "unusable"
+					return
+				}
+				bo.NextDelayMillis(1)
+			}()
+		}
+		if k > 0 && a != ans {
+			return fmt.Sprintf("inconsistent(build1=%s,build%d=%s)", ans, k+1, a)
+		}
+		ans = a
+	}
+	return ans
+}
+
+func ff(m float64) string { return strconv.FormatFloat(m, 'g', -1, 64) }
+
 func genCtors(r *gen.Rand, n int) {
 	ints := []int64{math.MinInt64, -2, -1, 0, 1, 2, 200, 10000, math.MaxInt64 - 1, math.MaxInt64}
 	for _, i := range ints {
 		_, e := retry.NewFixedBackoff(i)
 		emit("newfixed", fmt.Sprint(i), b2s(e == nil))
+		emit("newfixed", fmt.Sprint(i), viaBuilder(func(b *retry.BackoffBuilder) { b.BaseBackoffSpec(fmt.Sprintf("fixed=%d", i)) }))
+		emit("newfixed", fmt.Sprint(i), viaBuilder(func(b *retry.BackoffBuilder) { b.BaseBackoffSpec(fmt.Sprintf("fixed=%d", i)).WithLimit(3).WithJitter(0.2) }))
 		_, e = retry.NewAttemptLimitingBackoff(retry.NoDelayBackoff, int(i))
 		emit("newlimit", fmt.Sprint(i), b2s(e == nil))
+		emit("newlimit", fmt.Sprint(i), viaBuilder(func(b *retry.BackoffBuilder) { b.BaseBackoff(retry.NoDelayBackoff).WithLimit(int(i)) }))
+		emit("newlimit", fmt.Sprint(i), viaBuilder(func(b *retry.BackoffBuilder) { b.BaseBackoffSpec("fixed=5").WithJitter(0.1).WithLimit(int(i)) }))
 		for _, mx := range ints {
 			_, e := retry.NewRandomBackoff(i, mx)
 			emit("newrandom", fmt.Sprintf("%d %d", i, mx), b2s(e == nil))
+			emit("newrandom", fmt.Sprintf("%d %d", i, mx), viaBuilder(func(b *retry.BackoffBuilder) { b.BaseBackoffSpec(fmt.Sprintf("random=%d:%d", i, mx)).WithLimit(2) }))
 			for _, m := range gen.Float64Palette {
 				_, e := retry.NewExponentialBackoff(i, mx, m)
 				emit("newexpo", fmt.Sprintf("%d %d %s", i, mx, fb(m)), b2s(e == nil))
+				if r.Intn(4) == 0 {
+					emit("newexpo", fmt.Sprintf("%d %d %s", i, mx, fb(m)), viaBuilder(func(b *retry.BackoffBuilder) {
+						b.BaseBackoffSpec(fmt.Sprintf("exponential=%d:%d:%s", i, mx, ff(m))).WithJitter(0.3)
+					}))
+				}
 			}
 		}
 	}
@@ -108,6 +154,9 @@ func genCtors(r *gen.Rand, n int) {
 		for _, hi := range gen.Float64Palette {
 			_, e := retry.NewJitterAddingBackoff(one, lo, hi)
 			emit("newjitter", fmt.Sprintf("%s %s", fb(lo), fb(hi)), b2s(e == nil))
+			if r.Intn(3) == 0 {
+				emit("newjitter", fmt.Sprintf("%s %s", fb(lo), fb(hi)), viaBuilder(func(b *retry.BackoffBuilder) { b.BaseBackoffSpec("fixed=1").WithJitterBound(lo, hi) }))
+			}
 		}
 	}
 	for k := 0; k < n; k++ {
@@ -335,6 +384,62 @@ func genDelay(r *gen.Rand, n int) {
 	}
 }
 
+// genShared: one deterministic policy object queried by several goroutines at once, each with its own attempt
+// number; every answer must be the one the same object gives sequentially (emitted as an ordinary "delay" case, so
+// the model and the envelope judge it). Policies are documented as safe for concurrent use.
+func genShared(r *gen.Rand, n int) {
+	for k := 0; k < n; k++ {
+		i := int64(1 + r.Intn(1000))
+		mx := i * int64(1+r.Intn(1<<20))
+		m := []float64{2, 1.5, 3, 1.1, 10}[r.Intn(5)]
+		var b retry.Backoff
+		eb, err := retry.NewExponentialBackoff(i, mx, m)
+		if err != nil {
+			continue
+		}
+		b = eb
+		toks := fmt.Sprintf("E %d %d %s", i, mx, fb(m))
+		if r.Bool() {
+			lim := 5 + r.Intn(20)
+			lb, e := retry.NewAttemptLimitingBackoff(b, lim)
+			if e != nil {
+				continue
+			}
+			b = lb
+			toks = fmt.Sprintf("L %d %s", lim, toks)
+		}
+		const workers, rounds = 4, 4000
+		atts := make([]int, workers)
+		for w := range atts {
+			atts[w] = 2 + r.Intn(12)
+		}
+		bad := make([]int64, workers)
+		seen := make([]bool, workers)
+		var wg sync.WaitGroup
+		for w := 0; w < workers; w++ {
+			wg.Add(1)
+			go func(w int) {
+				defer wg.Done()
+				first := b.NextDelayMillis(atts[w])
+				for j := 0; j < rounds; j++ {
+					if v := b.NextDelayMillis(atts[w]); v != first && !seen[w] {
+						bad[w], seen[w] = v, true
+					}
+				}
+				if !seen[w] {
+					bad[w] = first
+				}
+			}(w)
+		}
+		wg.Wait()
+		stats["delay:shared"]++
+		for w := 0; w < workers; w++ {
+			pow := math.Pow(m, float64(atts[w]-1))
+			emit("delay", fmt.Sprintf("%d %s 0 %s", atts[w], fb(pow), toks), fmt.Sprint(bad[w]))
+		}
+	}
+}
+
 // ---------- C18: spec strings ----------
 
 func describe(b retry.Backoff) string {
@@ -437,7 +542,14 @@ func genSpecString(r *gen.Rand) string {
 func genSpec(r *gen.Rand, n int) {
 	for k := 0; k < n; k++ {
 		s := genSpecString(r)
-		bld := retry.NewBackoffBuilder().BaseBackoffSpec(s)
+		bld := retry.NewBackoffBuilder()
+		// the specification in force is the last one given: a third of the builders are given another one first
+		// (always when the spec under test is the empty string, which must not let an earlier one survive)
+		if s == "" || r.Intn(3) == 0 {
+			bld.BaseBackoffSpec([]string{"fixed=7", "random=1:9", "exponential=10:100:3", "bogus", ""}[r.Intn(5)])
+			stats["spec:set-twice"]++
+		}
+		bld.BaseBackoffSpec(s)
 		var lt []string
 		for l := r.Intn(3); l > 0; l-- {
 			switch r.Intn(3) {
@@ -543,6 +655,7 @@ func main() {
 			genCtors(r, *n)
 		case "delay":
 			genDelay(r, *n)
+			genShared(r, 12)
 		case "spec":
 			genSpec(r, *n)
 		case "parseint":
